@@ -241,6 +241,20 @@ func genAdmitCase(r *Rng, i int, k AdmitKnobs) *AdmitCase {
 			a.Remaining = pick(r, []time.Duration{200 * time.Millisecond, 1900 * time.Millisecond, 2 * time.Second, 2100 * time.Millisecond, 10 * time.Second, 3 * time.Second})
 		}
 	}
+	// metadata no property mentions: equal / different generations and resource versions on the object and the old object
+	if r.Chance(2, 3) {
+		a.Obj.MetaGen = pick(r, []int64{0, 1, 1, 2, 7})
+		a.Obj.MetaRV = pick(r, []string{"", "41", "42"})
+		if a.Op == admissionv1.Update {
+			a.Old.MetaGen, a.Old.MetaRV = a.Obj.MetaGen, pick(r, []string{a.Obj.MetaRV, "40"})
+			if r.Chance(1, 3) {
+				a.Old.MetaGen = pick(r, []int64{0, 1, 6})
+			}
+			if a.Old.MetaGen == a.Obj.MetaGen && a.Obj.MetaGen != 0 {
+				tag("meta.sameGeneration")
+			}
+		}
+	}
 	switch faultSite {
 	case 0:
 		a.NSErr = true
